@@ -4,6 +4,7 @@ import flow
 import burn_corr as BC
 import harness as H
 import routes_oracle as RO
+import heat_corr as HC
 from props import c01
 
 UNITS = [
@@ -12,6 +13,10 @@ UNITS = [
                     dict(gen='Noh2Cog', pfx='noh2cog', n=4, spec=c01.G, rt=c01.noh2_rt)],
               oracle=RO.oracle),
     flow.Unit('wrappers', groups=['catalogue'], props=['props/C07_wrappers.v'], oracle=RO.oracle),
+    flow.Unit('heat-rod-routes', groups=['heat'], props=['props/C07_heat.v'], custom_corr=HC.unit_corr, oracle=RO.oracle),
+    flow.Unit('routes-real-code', groups=[], props=[], oracle=RO.oracle, always_oracle=True,
+              note='pairs of routes run on the real code: ideal-gas vs general-EOS Riemann driver on ideal-gas data (every wave pattern, unequal gammas), Noh / Cog19 / '
+                   'wrappers, planar sandwiches vs rod, rod BC4 vs mirrored BC3'),
     flow.Unit('kenamond1-2d-3d', groups=[], props=['props/C07_burn.v'], custom_corr=BC.unit_corr, oracle=BC.oracle),
 ]
 
